@@ -2,8 +2,12 @@ package engines
 
 import (
 	"bytes"
+	"encoding/json"
 	"errors"
 	"fmt"
+	"io"
+	"os"
+	"os/exec"
 
 	"github.com/ozanh/ugo"
 	"github.com/ozanh/ugo/encoder"
@@ -43,6 +47,40 @@ func (w *chunkWriter) Write(p []byte) (int, error) {
 	}
 	w.buf.Write(p)
 	return n, nil
+}
+
+// c04Restart is what a freshly started process receives: bytes an earlier process stored, and the host world to run
+// the decoded program in. The new process has never encoded anything.
+type c04Restart struct {
+	Enc  []byte
+	Spec *sim.WorldSpec
+	Args []int
+}
+
+// C04DecodeOnly is the body of `simcheck c04decode`: decode, run, print the outcome.
+func C04DecodeOnly(in io.Reader, out io.Writer) error {
+	var r c04Restart
+	if err := json.NewDecoder(in).Decode(&r); err != nil {
+		return err
+	}
+	mm := newModuleMap(fixedModules)
+	res := map[string]string{}
+	bc, err := encoder.DecodeBytecodeFrom(bytes.NewReader(r.Enc), mm)
+	if err != nil {
+		res["decode_error"] = err.Error()
+	} else {
+		pool := &sim.SimPool{Always: 1}
+		restore := pool.Install()
+		sc := &sim.StepCounter{Cap: 100000}
+		rh := sc.Install()
+		resetHostStates()
+		o := c08RunOne(bc, sim.NewWorld(r.Spec, nil), []ugo.Object{ugo.Int(r.Args[0]), ugo.String("arg")})
+		rh()
+		restore()
+		res["outcome"] = o.out.String()
+		res["trace"] = o.trace
+	}
+	return json.NewEncoder(out).Encode(res)
 }
 
 func c04Run(rc *sim.RunCtx) {
@@ -156,6 +194,35 @@ func c04Run(rc *sim.RunCtx) {
 	if rc.Index%41 == 0 {
 		rc.Sample = map[string]any{"script": src, "encoded_len": len(enc), "reader_chunk": chunk, "outcome": orig.out.String()}
 	}
+	// crash and restart: a process that was started afresh and has only ever decoded must read the stored bytes
+	if rc.Index%97 == 3 || rc.T.IsReplay() && os.Getenv("VERIF_C04_RESTART") != "" {
+		if self, err := os.Executable(); err == nil {
+			in, _ := json.Marshal(c04Restart{Enc: enc, Spec: ws, Args: []int{int(args[0].(ugo.Int))}})
+			cmd := exec.Command(self, "c04decode")
+			cmd.Stdin = bytes.NewReader(in)
+			var so, se bytes.Buffer
+			cmd.Stdout, cmd.Stderr = &so, &se
+			rerr := cmd.Run()
+			var got map[string]string
+			json.Unmarshal(so.Bytes(), &got)
+			rc.Fault("restart-then-decode")
+			want := orig.out.String()
+			switch {
+			case rerr != nil || got == nil:
+				rc.Decoded = map[string]any{"script": src}
+				rc.Fail("restart-decode-crashed", "restart:crashed", "a freshly started process failed while decoding and running the stored program: %v\n%s", rerr, truncateStr(se.String(), 1500))
+				return
+			case got["decode_error"] != "":
+				rc.Decoded = map[string]any{"script": src}
+				rc.Fail("decode-failed", "restart:decode-failed", "a freshly started process (which never encoded anything) cannot decode what this process encoded: %s\n%s", got["decode_error"], src)
+				return
+			case got["outcome"] != want || got["trace"] != orig.trace:
+				rc.Decoded = map[string]any{"script": src, "original": want, "after_restart": got["outcome"]}
+				rc.Fail("round-trip-changes-behaviour", "restart:behaviour", "the program decoded by a freshly started process behaves differently\n original:      %s trace=%s\n after restart: %s trace=%s\nscript:\n%s", want, orig.trace, got["outcome"], got["trace"], src)
+				return
+			}
+		}
+	}
 	for gen, r := range []c08Result{r1, r2} {
 		if !r.out.Equal(orig.out) || r.trace != orig.trace {
 			what := "outcome"
@@ -179,7 +246,7 @@ func init() {
 		Level: "exploration",
 		Rule: "fault-free control arm of the storage simulation: fixed corpus + generated scripts (constants of every kind incl. extreme ints, NaN-free special floats, -0.0, non-UTF-8 strings, closures, imports of generated/fixed source modules and builtin modules) are encoded through a simulated writer " +
 			"(1/3 of runs first check that a failing or short writer makes Encode fail), read back through a short-read reader, decoded, re-encoded and decoded again; original, first- and second-generation programs run in the same host world and must agree on outcome, history and resolved error trace. " +
-			"Non-trivial = compiled and self-deterministic; distinct = distinct scripts.",
+			"About 1 run in 100 also hands the stored bytes to a freshly started process that has never encoded anything (crash and restart), which must decode and run them to the same outcome. Non-trivial = compiled and self-deterministic; distinct = distinct scripts.",
 		Assumptions: []string{
 			"Encode performs one Write and Decode one io.Copy, so the stream dimension is shallow; detection power comes mostly from the workload",
 			"replay re-encodes: the order of map entries in the encoded bytes depends on Go map iteration; a violation that depends on that order may need several replays",
